@@ -315,7 +315,7 @@ def gen_history(rnd, nops, geo, strkind=None, ops_weights=None, obs_every=1, nul
             return k, str(rnd.choice(cands))
     void_kinds = ("null", "sl", "sc", "sv", "sva", "sp", "sj", "sjl", "raw", "ref", "doc")
     choices = ops_weights or ["root", "root", "mem", "memw", "elem", "elemw", "set", "set", "setm", "setm", "sete", "add", "add", "addv", "toarr", "toobj", "remi", "remk",
-                              "remi", "remk", "setm", "add", "memw", "elemw", "clear", "cleardoc", "copydoc", "swapdoc", "shrink", "deser", "deser"]
+                              "remi", "remk", "setm", "add", "memw", "elemw", "clear", "cleardoc", "copydoc", "swapdoc", "shrink", "deser", "deser", "rd2", "rd2"]
     count = 0
     for _ in range(nops):
         op = rnd.choice(choices)
@@ -424,6 +424,11 @@ def gen_history(rnd, nops, geo, strkind=None, ops_weights=None, obs_every=1, nul
             if d != e:
                 sd = snapshot(docs[d].root); se = snapshot(docs[e].root); clear(docs[d].root); clear(docs[e].root); build(docs[d].root, se); build(docs[e].root, sd)
             emit("swapdoc %d %d" % (d, e), "")
+        elif op == "rd2" and U:
+            r = pick(U, "OA")
+            def sub_():
+                return ("m %s" % (rnd.choice(KEYS).hex() or "-")) if rnd.random() < 0.6 else ("e %d" % rnd.choice([0, 1, 3]))
+            emit("rd2 %d %s %s" % (r, sub_(), sub_()), None)
         elif op == "deser" and U:
             r = rnd.choice(U); n, d = refs[r]
             fmt, data, snap = rnd.choice([x for x in DESER if not (small_ints and b"18446744073709551615" in x[1])])
